@@ -232,7 +232,7 @@ func (c *Ctx) checkLockInv(st *State, fr *Frame, ins ssa.Instruction, o ownerInf
 		return
 	}
 	for i, cl := range li.Clauses {
-		t, err := c.evalBool(env, cl.Expr)
+		t, err := c.evalGoal(env, cl.Expr)
 		if err != nil {
 			c.Errorf("CONTRACT-ERROR %s: %v", cl.Line, err)
 			continue
